@@ -182,6 +182,92 @@ func newValCtx(powers []int64) *valCtx {
 	return vc
 }
 
+// newValCtxVia builds the same validator set as newValCtx, but the way a running chain arrives
+// at it: from an earlier set (whose total was already computed and cached) by the validator-set
+// operations that the state machine applies between heights (state.SetValidators / the admin
+// plugin work on a Copy() and call Update / Add / Remove). The model (powers, total) is the same;
+// only the history of the *types.ValidatorSet object differs.
+//
+//	via%4 == 1: every power first differs (1, or halved), then Update to the final power
+//	via%4 == 2: one validator is missing at first, then Add
+//	via%4 == 3: one extra validator at first, then Remove
+func newValCtxVia(powers []int64, via int) (*valCtx, string) {
+	vc := newValCtx(powers)
+	n := len(powers)
+	if via%4 == 0 || vc.overflow {
+		return vc, "direct"
+	}
+	mk := func(i int, power int64) *types.Validator {
+		k := vc.keyOf[i]
+		return &types.Validator{Address: append([]byte{}, keys[k].addr...), PubKey: keys[k].pub, VotingPower: power, IsCA: powers[i] > 0}
+	}
+	sel := via / 4
+	switch via % 4 {
+	case 1:
+		vals := make([]*types.Validator, n)
+		for i := range vals {
+			old := int64(1)
+			if sel%2 == 1 {
+				old = powers[i]/2 + 1
+			}
+			if i != sel%n && sel%3 == 0 {
+				old = powers[i] // only one validator changes
+			}
+			vals[i] = mk(i, old)
+		}
+		set := types.NewValidatorSet(vals)
+		set.TotalVotingPower()
+		set = set.Copy()
+		for i := range vals {
+			if vals[i].VotingPower != powers[i] {
+				set.Update(mk(i, powers[i]))
+			}
+		}
+		vc.set = set
+		return vc, "updated"
+	case 2:
+		if n < 2 {
+			return vc, "direct"
+		}
+		j := sel % n
+		var vals []*types.Validator
+		for i := 0; i < n; i++ {
+			if i != j {
+				vals = append(vals, mk(i, powers[i]))
+			}
+		}
+		set := types.NewValidatorSet(vals)
+		set.TotalVotingPower()
+		set = set.Copy()
+		set.Add(mk(j, powers[j]))
+		vc.set = set
+		return vc, "added"
+	default:
+		if n >= maxVals {
+			return vc, "direct"
+		}
+		vals := make([]*types.Validator, 0, n+1)
+		for i := 0; i < n; i++ {
+			vals = append(vals, mk(i, powers[i]))
+		}
+		extra := &types.Validator{Address: append([]byte{}, keys[n].addr...), PubKey: keys[n].pub, VotingPower: int64(1 + sel%1000), IsCA: true}
+		vals = append(vals, extra)
+		set := types.NewValidatorSet(vals)
+		set.TotalVotingPower()
+		set = set.Copy()
+		set.Remove(extra.Address)
+		vc.set = set
+		return vc, "removed"
+	}
+}
+
+func genVia(t *rapid.T) int {
+	if rapid.IntRange(0, 9).Draw(t, "viaDirect") < 6 {
+		return 0
+	}
+	return rapid.IntRange(1, 4095).Draw(t, "via")
+}
+
 func (vc *valCtx) addr(i int) []byte { return keys[vc.keyOf[i]].addr }
 
 // moreThanTwoThirds: 3*sum > 2*total, in big integers.
@@ -1049,6 +1135,7 @@ type VSCase struct {
 	Blocks  []BID    `json:"blocks"`
 	Events  []Ev     `json:"events"`
 	Tampers []Tamper `json:"tampers,omitempty"`
+	Via     int      `json:"via,omitempty"` // how the validator set object came to be (newValCtxVia)
 }
 
 var mutKinds = []string{"index", "index", "addr", "as", "height", "round", "type", "sigflip", "sigblock", "signil", "sigsecp", "sigzero"}
@@ -1104,6 +1191,7 @@ func genVSCase(t *rapid.T) VSCase {
 	var c VSCase
 	n := rapid.OneOf(rapid.IntRange(1, 4), rapid.IntRange(1, 7), rapid.IntRange(1, maxVals)).Draw(t, "n")
 	c.Powers = genPowers(t, n)
+	c.Via = genVia(t)
 	c.Height = rapid.SampledFrom([]int64{1, 2, 7}).Draw(t, "height")
 	c.Round = rapid.SampledFrom([]int64{0, 0, 1, 3}).Draw(t, "round")
 	c.Type = rapid.SampledFrom([]int{1, 2, 2}).Draw(t, "type")
@@ -1145,7 +1233,8 @@ func runVSCase(c VSCase, x *h.Ctx) {
 	if len(c.Powers) < 1 || len(c.Powers) > maxVals || c.Height == 0 {
 		return
 	}
-	vc := newValCtx(c.Powers)
+	vc, how := newValCtxVia(c.Powers, c.Via)
+	x.Labelf("validator-set:%s", how)
 	typ := byte(c.Type)
 	vs := types.NewVoteSet(chainID, c.Height, c.Round, typ, vc.set)
 	m := newRefSet(vc, len(c.Blocks))
@@ -1265,6 +1354,7 @@ type HVSCase struct {
 	Height int64   `json:"height"`
 	Blocks []BID   `json:"blocks"`
 	Events []HEv   `json:"events"`
+	Via    int     `json:"via,omitempty"`
 }
 
 var hvsMutKinds = []string{"index", "addr", "as", "height", "sigflip", "sigblock", "signil"}
@@ -1273,6 +1363,7 @@ func genHVSCase(t *rapid.T) HVSCase {
 	var c HVSCase
 	n := rapid.OneOf(rapid.IntRange(1, 4), rapid.IntRange(1, 7)).Draw(t, "n")
 	c.Powers = genPowers(t, n)
+	c.Via = genVia(t)
 	c.Height = rapid.SampledFrom([]int64{1, 5}).Draw(t, "height")
 	c.Blocks = genBlocks(t)
 	nb := len(c.Blocks)
@@ -1341,7 +1432,8 @@ func runHVSCase(c HVSCase, x *h.Ctx) {
 	if len(c.Powers) < 1 || len(c.Powers) > maxVals || c.Height == 0 {
 		return
 	}
-	vc := newValCtx(c.Powers)
+	vc, how := newValCtxVia(c.Powers, c.Via)
+	x.Labelf("validator-set:%s", how)
 	hvs := pbft.NewHeightVoteSet(chainID, c.Height, vc.set)
 	fail := mkFail(x, vc, c.Blocks)
 	x.Label(powerClass(vc))
